@@ -23,9 +23,10 @@ Transfers and the C++ they stand for
 | `derive a i k d`         | the element is handed to the *user's* function as an lvalue reference; the harness functions read it and make `k` new values from it (identity `id + 100·j`, j = 1..k) |
 | `read a i`               | the library reads the payload (comparison, hashing) |
 | `steal a d`              | the container is move-constructed / move-assigned as a whole (buffer or nodes change owner, no element is touched); the argument is left empty |
-| `pop a i d`              | `T r{std::move(c.back())}; c.pop_back();` |
+| `pop a i d`              | `T r{std::move(c.back())}; c.pop_back();` — with `d = drop`: `c.erase(it)` / the element is overwritten by an assignment (destroyed in place, nothing is move-constructed) |
 | `swap a i j`             | `std::swap` of two elements of the same container (`std::reverse`) |
 | `fresh v d`              | a value made by the user's function that comes from no argument |
+| `shift a i`              | `*dest = std::move(*it)` inside `std::remove_if` / `std::unique`: the element is move-assigned to an earlier place of its own container (the model keeps elements, not memory positions: only the in-place move is logged) |
 
 `Dest`: appended to the result, destroyed, or appended to an in/out argument.
 -/
@@ -64,6 +65,7 @@ inductive Instr where
   | pop (a i : Nat) (d : Dest)
   | swap (a i j : Nat)
   | fresh (v : Nat) (d : Dest)
+  | shift (a i : Nat)
   deriving DecidableEq, Repr
 
 structure St where
@@ -141,8 +143,9 @@ def step (st : St) : Instr → St
     | none => noteOob st a i
     | some s =>
       let st := noteRam st s
+      -- destination `drop`: the element is erased / overwritten in place, nothing is move-constructed
       let st := { st with args := setSlot st.args a i { s with st := .gone },
-                          mv := if s.orig then st.mv ++ [s.id] else st.mv }
+                          mv := if s.orig && d != .drop then st.mv ++ [s.id] else st.mv }
       put st d [s]
   | .swap a i j =>
     match getSlot st.args a i, getSlot st.args a j with
@@ -152,6 +155,13 @@ def step (st : St) : Instr → St
     | none, _ => noteOob st a i
     | _, none => noteOob st a j
   | .fresh v d => put st d [{ id := v, st := .live, orig := false }]
+  | .shift a i =>
+    -- the element is move-assigned to another place of its own container (`std::remove_if`, `std::unique`): an in-place move
+    match getSlot st.args a i with
+    | none => noteOob st a i
+    | some s =>
+      let st := noteRam st s
+      { st with sw := st.sw ++ [s.id] }
 
 def run (p : List Instr) (st : St) : St := p.foldl step st
 
